@@ -6,7 +6,7 @@ package flight12
 //symgo:param RFULL quick=0 thorough=1
 //symgo:replace github.com/pion/dtls/v3/pkg/crypto/prf.VerifyDataClient zzVerifyDataClient
 //symgo:replace github.com/pion/dtls/v3/pkg/crypto/prf.VerifyDataServer zzVerifyDataServer
-//symgo:stub prf.VerifyDataClient / prf.VerifyDataServer (TLS 1.2 PRF over the transcript hash) are uninterpreted functions PRF_client_finished / PRF_server_finished of (master secret, transcript bytes) with a 12-byte result: equal inputs give equal outputs, nothing else is known. The PRF construction itself is property C10's subject.
+//symgo:stub prf.VerifyDataClient / prf.VerifyDataServer (TLS 1.2 PRF over the transcript hash) are modelled as PRF_client_finished / PRF_server_finished (master secret, H(transcript bytes)) with uninterpreted functions PRF_* (12-byte result) and H (32-byte result): equal inputs give equal outputs, nothing else is known. The PRF construction itself is property C10's subject.
 //symgo:stub the cipher suite is a harness fake (custom id 0xff01, plain PSK key exchange) that records the arguments of Init; crypto/rand.Reader hands out fresh unconstrained bytes and logs them; time.Now is the engine constant
 //symgo:stub both endpoints are the real flight12 handlers driven the way handshakeFSM12 drives them (Generate, stamp message_sequence, marshal, push into both caches with the record's epoch, Parse); the record layer, retransmission timers and the transport are not involved
 //symgo:assume NAMED ASSUMPTION key separation of the PRF: for one transcript, two different master secrets (different length or different bytes) give different 12-byte Finished values. It is stated once per run as an implication between the two harness-side applications of the same uninterpreted function.
@@ -21,12 +21,18 @@ import (
 	"github.com/pion/dtls/v3/pkg/protocol/handshake"
 )
 
+// zzPRF models RFC 5246 7.4.9 verify_data = PRF(master_secret, finished_label, Hash(handshake_messages))[0..11]
+// with two uninterpreted functions: the transcript hash H and one keyed function per label.
+func zzPRF(label string, ms, transcript []byte) []byte {
+	return zzsymUF("PRF_"+label, 12, ms, zzsymUF("H", 32, transcript))
+}
+
 func zzVerifyDataClient(ms, transcript []byte, _ prf.HashFunc) ([]byte, error) {
-	return zzsymUF("PRF_client_finished", 12, ms, transcript), nil
+	return zzPRF("client_finished", ms, transcript), nil
 }
 
 func zzVerifyDataServer(ms, transcript []byte, _ prf.HashFunc) ([]byte, error) {
-	return zzsymUF("PRF_server_finished", 12, ms, transcript), nil
+	return zzPRF("server_finished", ms, transcript), nil
 }
 
 // zzRandLog is the entropy source: every Read returns fresh unconstrained bytes and logs them.
@@ -187,8 +193,8 @@ func zzResumeTwoEndpoints() {
 
 	// RFC 5246 7.4.9 / RFC 6347 4.2.6: server Finished covers ClientHello || ServerHello of the resumed handshake
 	transcript := append(append([]byte{}, zzRaw(sent[0])...), zzRaw(msgs[0])...)
-	vdServer := zzsymUF("PRF_server_finished", 12, ssec, transcript)
-	vdClient := zzsymUF("PRF_server_finished", 12, csec, transcript)
+	vdServer := zzPRF("server_finished", ssec, transcript)
+	vdClient := zzPRF("server_finished", csec, transcript)
 	same := zzsymEqBytes(csec, ssec)
 	zzsymAssume(zzsymImplies(zzsymNot(same), zzsymNot(zzsymEqBytes(vdServer, vdClient)))) // named assumption
 	zzsymAssert(zzsymEqBytes(sfin.VerifyData, vdServer), "server_finished_is_prf_of_stored_secret")
